@@ -251,3 +251,7 @@ def xc_list_index_pop(a, b):
     i = xs.index(b)
     last = xs.pop()
     return i, last, len(xs)
+
+
+def xc_float_small(a):
+    return float(a) == a if -1000 <= a <= 1000 else None
